@@ -51,6 +51,8 @@ def features(deck):
         f.add('keyword_order')
     if deck.get('cardorder'):
         f.add('card_order')
+    if any(c.get('eqstyle') for c in deck['cells']):
+        f.add('optional_equals_sign')
     if deck.get('tr6'):
         f.add('six_entry_matrices')
     if any(c.get('parens') is not None for c in deck['cells']):
@@ -67,7 +69,7 @@ def run(chk, decks, clauses, seed, optsets, npts=110, decorate=None, lo=-11, hi=
     jobs, nd, meta = [], {}, {}
     tid = 0
     decks = [adeck.normalise(d) for d in decks]
-    renumbered = [i for i, d in enumerate(decks) if i % 3 == 1 and not any(c.get('like') for c in d['cells'])]
+    renumbered = [i for i, d in enumerate(decks) if i % 3 == 1 and not d.get('norenumber') and not any(c.get('like') for c in d['cells'])]
     family = numberings.choose(chk, decks, [i for i in renumbered if (i // 3) % 2 == 1], random.Random(seed + 1))
     for i, d in enumerate(decks):
         if i in family:
@@ -94,6 +96,9 @@ def run(chk, decks, clauses, seed, optsets, npts=110, decorate=None, lo=-11, hi=
                 for key in ('ftrspell', 'trclspell'):
                     if c.get(key) in ('12', 'star'):
                         c[key] = {'12': '6', 'star': 'star6'}[c[key]]
+        if i % 7 == 6:
+            for c in d['cells']:         # the equals sign of a keyword is optional
+                c['eqstyle'] = 'blank' if (i // 7) % 2 else 'spaced'
         if i % 7 == 5:
             adeck.imp_datacards(d, i // 7)         # importances on an IMP:N data card, written as reals
         if i % 5 == 1:
